@@ -1,9 +1,10 @@
 (* C01, semantic clause, part 2 of 3: arrays.  Select / Store / ArrayValue and the array branches
    of Equals, against core/Sem.v (arr_assign, OSelect, OStore, OArrayValue).
    Array values of the fragment are in the canonical form of SimplifierSemBase_proofs.arr_node_ok:
-   index sort not an array sort and not Real, element sort not Real, indices constants of Bool /
-   Int / BV / String sort strictly increasing in Ctors.const_key order, no assigned value
-   syntactically equal to the default. *)
+   index sort not an array sort, not Real, not Bool / BV (see there), element sort not Real,
+   indices constants of Int / String sort strictly increasing in Ctors.const_key order, no
+   assigned value syntactically equal to the default.  walk_equals on two constant array values
+   is the extensional comparison const_eqb (const_eqb_sound). *)
 From Coq Require Import List ZArith Bool String Reals Lia Lra Permutation.
 From Coq Require Import ClassicalDescription FunctionalExtensionality.
 From PySMT.core Require Import Syntax SyntaxLemmas PyPrims Types Sem.
@@ -457,6 +458,34 @@ Close Scope Z_scope.
 Lemma is_constant_array it l : is_constant (T (OArrayValue it) l) = forallb is_constant l.
 Proof. cbn [is_constant]. induction l as [|x r IH]; [reflexivity|]. cbn [forallb]. now rewrite <- IH. Qed.
 
+Lemma idx_ok_infinite it : idx_ok it = true -> infinite_idx it = true.
+Proof. destruct it; cbn; auto. Qed.
+Lemma idx_ok_not_covered it n : idx_ok it = true -> idx_covered it n = false.
+Proof. destruct it; cbn; auto; discriminate. Qed.
+
+Lemma union_keys_In a b k : In k (union_keys a b) <-> In k a \/ In k b.
+Proof.
+  unfold union_keys. rewrite in_app_iff, filter_In. split.
+  - intros [H|[H _]]; auto.
+  - intros [H|H]; auto. destruct (existsb (term_eqb k) a) eqn:E.
+    + left. apply existsb_exists in E. destruct E as (x & Hx & Ex). apply term_eqb_sound in Ex. now subst.
+    + right. auto.
+Qed.
+Lemma combine_false rs : combine_results rs = Some false -> In (Some false) rs.
+Proof.
+  unfold combine_results. destruct (existsb _ rs) eqn:E.
+  - intros _. apply existsb_exists in E. destruct E as ([[|]|] & Hx & Ex); try discriminate. exact Hx.
+  - destruct (existsb (fun r => match r with None => true | _ => false end) rs); intros H; discriminate H.
+Qed.
+Lemma combine_true rs : combine_results rs = Some true -> forall x, In x rs -> x = Some true.
+Proof.
+  unfold combine_results. destruct (existsb (fun r => match r with Some false => true | _ => false end) rs) eqn:E1; [discriminate|].
+  destruct (existsb (fun r => match r with None => true | _ => false end) rs) eqn:E2; [discriminate|]. intros _ x Hx.
+  destruct x as [[|]|]; auto.
+  - assert (C : existsb (fun r => match r with Some false => true | _ => false end) rs = true) by (apply existsb_exists; eauto). congruence.
+  - assert (C : existsb (fun r => match r with None => true | _ => false end) rs = true) by (apply existsb_exists; eauto). congruence.
+Qed.
+
 Section ArrEq.
 Variable I : interp.
 Hypothesis Hwf : wfi I.
@@ -464,61 +493,106 @@ Notation res_ok := (res_ok I).
 Notation alook := (alook I).
 Notation kv := (kv I).
 
-Lemma arrays_differ it d rest d' rest' td :
-  let A := T (OArrayValue it) (d :: rest) in let B := T (OArrayValue it) (d' :: rest') in
-  okt A = true -> okt B = true -> tc A = Some (TArr it td) -> tc B = Some (TArr it td) ->
-  is_constant A = true -> is_constant B = true -> basic_ty td = true -> infinite_idx it = true ->
-  A <> B -> eval I A <> eval I B.
+(* constants that are not array values: compared by value *)
+Lemma scalar_eqb_sound a b t : okt a = true -> okt b = true -> tc a = Some t -> tc b = Some t ->
+  is_constant a = true -> is_constant b = true -> is_array_value a = false -> is_array_value b = false ->
+  exists x y, constant_value a = Some x /\ constant_value b = Some y /\ (pyval_eqb x y = true <-> eval I a = eval I b).
 Proof.
-  intros A B Oa Ob Ta Tb Ca Cb Btd Hinf Hne Heq.
-  destruct (arr_value_parts _ _ _ _ Oa Ta) as (td1 & E1 & Td & Od & Hit & Hel & Hev & Hc & Hs & Ho & Hty & Hv).
-  inversion E1; subst td1. clear E1.
-  destruct (arr_value_parts _ _ _ _ Ob Tb) as (td2 & E2 & Td' & Od' & _ & _ & Hev' & Hc' & Hs' & Ho' & Hty' & Hv').
-  inversion E2; subst td2. clear E2.
-  unfold A, B in Ca, Cb. rewrite is_constant_array in Ca, Cb. cbn [forallb] in Ca, Cb.
-  apply andb_true_iff in Ca, Cb. destruct Ca as [Cd Cr]. destruct Cb as [Cd' Cr']. rewrite forallb_forall in Cr, Cr'.
-  pose proof (const_key_const d td Od Td Cd Btd) as Kd. pose proof (const_key_const d' td Od' Td' Cd' Btd) as Kd'.
-  assert (KV : forall p, In p (pairs_of rest) -> key_const (snd p) = true).
-  { intros p Hp. unfold pokt, ptyped in *. rewrite Forall_forall in Ho, Hty. destruct (Ho p Hp), (Hty p Hp).
-    apply (const_key_const _ td); auto. apply Cr. now destruct (pairs_of_In _ _ Hp). }
-  assert (KV' : forall p, In p (pairs_of rest') -> key_const (snd p) = true).
-  { intros p Hp. unfold pokt, ptyped in *. rewrite Forall_forall in Ho', Hty'. destruct (Ho' p Hp), (Hty' p Hp).
-    apply (const_key_const _ td); auto. apply Cr'. now destruct (pairs_of_In _ _ Hp). }
-  unfold A, B in Heq. rewrite !eval_array in Heq by auto. injection Heq as Hf.
-  assert (Hfx : forall x, alook (pairs_of rest) (fun _ => eval I d) x = alook (pairs_of rest') (fun _ => eval I d') x) by (intros x; now rewrite Hf).
-  pose proof (keys_sorted_NoDup _ Hs) as Hn. pose proof (keys_sorted_NoDup _ Hs') as Hn'.
-  (* the defaults agree *)
-  assert (Ed : d = d').
-  { destruct (fresh_exists I it (keys (pairs_of rest) ++ keys (pairs_of rest'))) as (x & Hx); auto.
-    { apply Forall_forall. intros k Hk. apply in_app_or in Hk. unfold kconsts, ptyped in *.
-      rewrite Forall_forall in Hc, Hc', Hty, Hty'. destruct Hk as [Hk|Hk]; apply in_map_iff in Hk; destruct Hk as (p & <- & Hp).
-      - split; [apply Hc | apply Hty]; auto.
-      - split; [apply Hc' | apply Hty']; auto. }
-    specialize (Hfx x). rewrite !alook_notin in Hfx.
-    - now apply (eval_kv_inj I).
-    - intros p Hp. apply Hx. apply in_or_app. right. now apply in_map.
-    - intros p Hp. apply Hx. apply in_or_app. left. now apply in_map. }
-  subst d'. apply Hne. unfold A, B. f_equal. f_equal.
-  rewrite <- (flatten_pairs rest Hev), <- (flatten_pairs rest' Hev'). f_equal.
-  (* the assignments agree *)
-  assert (Hsub : forall r1 r2, kconsts r1 -> kconsts r2 -> NoDup (keys r1) -> NoDup (keys r2) ->
-            (forall p, In p r1 -> key_const (snd p) = true) -> (forall p, In p r2 -> key_const (snd p) = true) ->
-            (forall p, In p r1 -> snd p <> d) ->
-            (forall x, alook r1 (fun _ => eval I d) x = alook r2 (fun _ => eval I d) x) ->
-            forall p, In p r1 -> In p r2).
-  { intros r1 r2 C1 C2 N1 N2 V1 V2 D1 Hx [k v] Hp.
-    assert (Ek : alook r1 (fun _ => eval I d) (kv k) = eval I v) by (apply alook_in; auto).
-    destruct (classic (exists q, In q r2 /\ kv (fst q) = kv k)) as [(q & Hq & Eq)|Hno].
-    - destruct q as [k' v']. cbn in Eq. unfold kconsts in C1, C2. rewrite Forall_forall in C1, C2.
-      apply kv_inj in Eq; [|exact (C2 _ Hq) | exact (C1 _ Hp)]. subst k'.
-      assert (Ek' : alook r2 (fun _ => eval I d) (kv k) = eval I v') by (apply alook_in; auto; apply Forall_forall; auto).
-      rewrite <- Hx, Ek in Ek'. apply eval_kv_inj in Ek'; [subst; auto | exact (V1 _ Hp) | exact (V2 _ Hq)].
-    - exfalso. assert (Ek' : alook r2 (fun _ => eval I d) (kv k) = eval I d).
-      { apply alook_notin. intros q Hq E. apply Hno. eauto. }
-      rewrite <- Hx, Ek in Ek'. apply eval_kv_inj in Ek'; [|exact (V1 _ Hp) | exact Kd]. exact (D1 _ Hp Ek'). }
-  apply sorted_unique; auto. intros p. split.
-  - apply Hsub; auto.
-  - apply Hsub; auto.
+  intros Oa Ob Ta Tb Ca Cb Aa Ab.
+  destruct (const_cases a t Oa Ta Ca) as [(x & -> & ->)|[(x & -> & ->)|[(n1 & d1 & -> & -> & D1)|[(v1 & w1 & -> & ->)|[(s1 & -> & ->)|(? & ? & _ & Ea)]]]]];
+    [| | | | |congruence];
+    destruct (const_cases b _ Ob Tb Cb) as [(y & -> & Ey)|[(y & -> & Ey)|[(n2 & d2 & -> & Ey & D2)|[(v2 & w2 & -> & Ey)|[(s2 & -> & Ey)|(? & ? & Ey & _)]]]]];
+    try discriminate Ey; do 2 eexists; (split; [reflexivity|]); (split; [reflexivity|]); cbn; unfold fr_eqb; cbn [fst snd].
+  - rewrite Z.eqb_eq. destruct x, y; split; intros H; try reflexivity; try discriminate H; lia.
+  - rewrite Z.eqb_eq. split; [intros H; f_equal; lia | intros [= H]; lia].
+  - rewrite Z.eqb_eq, <- (Q2R'_eq n1 d1 n2 d2 D1 D2). split; [intros ->; reflexivity | intros [= H]; exact H].
+  - inversion Ey; subst. rewrite Z.eqb_eq. split; [intros H; f_equal; lia | intros [= H]; lia].
+  - split; [intros H; f_equal; now apply zs_eqb_eq | intros [= H]; now apply zs_eqb_eq].
+Qed.
+
+(* an array value of the fragment that is a constant: its parts *)
+Lemma const_array_parts l it e : okt l = true -> tc l = Some (TArr it e) -> is_constant l = true ->
+  exists d rest, l = T (OArrayValue it) (d :: rest) /\ tc d = Some e /\ okt d = true /\ is_constant d = true /\
+    idx_ok it = true /\ Nat.even (List.length rest) = true /\ kconsts (pairs_of rest) /\ NoDup (keys (pairs_of rest)) /\
+    ptyped it e (pairs_of rest) /\
+    (forall k, okt (arr_get k (pairs_of rest) d) = true /\ tc (arr_get k (pairs_of rest) d) = Some e /\
+               is_constant (arr_get k (pairs_of rest) d) = true).
+Proof.
+  intros O Tc C.
+  destruct (const_cases l _ O Tc C) as [(x & -> & E)|[(x & -> & E)|[(n1 & d1 & -> & E & D1)|[(v1 & w1 & -> & E)|[(s1 & -> & E)|(? & ? & _ & Al)]]]]];
+    try discriminate E.
+  destruct l as [o ll]. destruct o; try discriminate Al. destruct ll as [|d rest]; [apply okt_node in O; discriminate O|].
+  destruct (arr_value_parts _ _ _ _ O Tc) as (td & Ety & Td & Od & Hit & Hel & Hev & Hc & Hs & Ho & Hty & _).
+  inversion Ety; subst. rewrite is_constant_array in C. cbn [forallb] in C. apply andb_true_iff in C. destruct C as [Cd Cr].
+  exists d, rest. repeat split; auto. { now apply keys_sorted_NoDup. }
+  all: unfold arr_get; destruct (assoc_get k (pairs_of rest)) as [v|] eqn:G; auto; apply assoc_get_In in G;
+    unfold pokt, ptyped in *; rewrite Forall_forall in Ho, Hty; destruct (Ho _ G) as [_ Ov]; destruct (Hty _ G) as [_ Tv]; auto.
+  rewrite forallb_forall in Cr. apply Cr. now destruct (pairs_of_In _ _ G).
+Qed.
+
+Lemma const_eqb_sound : forall fuel l r t b, okt l = true -> okt r = true -> tc l = Some t -> tc r = Some t ->
+  is_constant l = true -> is_constant r = true -> const_eqb fuel l r = Some b -> (b = true <-> eval I l = eval I r).
+Proof.
+  induction fuel as [|f IH]; intros l r t b Ol Or Tl Tr Cl Cr E; [discriminate E|]. cbn [const_eqb] in E.
+  destruct (term_eqb l r) eqn:Eq. { apply term_eqb_sound in Eq. subst. inversion E. tauto. }
+  rewrite Cl, Cr in E. cbn [negb orb] in E.
+  destruct (is_array_value l) eqn:Al.
+  - (* array values *)
+    destruct l as [ol ll]. destruct ol; try discriminate Al.
+    destruct (tc_inv _ _ _ Tl) as (tys & _ & Hr). cbn in Hr. destruct tys as [|td trest]; [discriminate|].
+    destruct (array_value_ok it td trest true); [|discriminate]. inversion Hr; subst t. clear Hr.
+    destruct (const_array_parts _ it td Ol Tl Cl) as (dl & rl & El & Tdl & Odl & Cdl & Hit & Hevl & Hcl & Hnl & Htyl & Gl).
+    inversion El; subst ll. clear El.
+    destruct (const_array_parts _ it td Or Tr Cr) as (dr & rr & -> & Tdr & Odr & Cdr & _ & Hevr & Hcr & Hnr & Htyr & Gr).
+    cbn zeta in E. set (pl := pairs_of rl) in *. set (pr := pairs_of rr) in *.
+    set (ks := union_keys (keys pl) (keys pr)) in *.
+    rewrite !eval_array by auto. fold pl pr.
+    assert (Hk : forall k, In k ks -> key_const k = true /\ tc k = Some it).
+    { intros k Hk. apply union_keys_In in Hk. unfold kconsts, ptyped in *. rewrite Forall_forall in Hcl, Hcr, Htyl, Htyr.
+      destruct Hk as [Hk|Hk]; apply in_map_iff in Hk; destruct Hk as (p & <- & Hp); split; try (apply Hcl; exact Hp); try (apply Hcr; exact Hp).
+      - now destruct (Htyl _ Hp). - now destruct (Htyr _ Hp). }
+    assert (Hget : forall k, In k ks ->
+               alook pl (fun _ => eval I dl) (kv k) = eval I (arr_get k pl dl) /\ alook pr (fun _ => eval I dr) (kv k) = eval I (arr_get k pr dr)).
+    { intros k Hin. destruct (Hk k Hin) as [Kc _]. unfold arr_get. rewrite !(alook_assoc_get I _ k Kc) by auto.
+      split; [destruct (assoc_get k pl) | destruct (assoc_get k pr)]; reflexivity. }
+    assert (Hout : forall x, (forall k, In k ks -> kv k <> x) ->
+               alook pl (fun _ => eval I dl) x = eval I dl /\ alook pr (fun _ => eval I dr) x = eval I dr).
+    { intros x Hx. split; apply alook_notin; intros p Hp; apply Hx; apply union_keys_In; [left | right]; now apply in_map. }
+    destruct (combine_results _) as [[|]|] eqn:Ec; [| |discriminate E].
+    + (* every assigned index agrees: the defaults decide *)
+      pose proof (combine_true _ Ec) as Hall. rewrite (idx_ok_not_covered it _ Hit) in E.
+      pose proof (IH dl dr td b Odl Odr Tdl Tdr Cdl Cdr E) as Hd.
+      assert (Hkeys : forall k, In k ks -> eval I (arr_get k pl dl) = eval I (arr_get k pr dr)).
+      { intros k Hin. assert (Ek : const_eqb f (arr_get k pl dl) (arr_get k pr dr) = Some true) by (apply Hall; apply in_map_iff; eauto).
+        destruct (Gl k) as (A1 & A2 & A3). destruct (Gr k) as (B1 & B2 & B3).
+        apply (IH _ _ td true A1 B1 A2 B2 A3 B3 Ek). reflexivity. }
+      split.
+      * intros Hb. f_equal. apply functional_extensionality. intros x.
+        destruct (classic (exists k, In k ks /\ kv k = x)) as [(k & Hin & <-)|Hno].
+        -- destruct (Hget k Hin) as [-> ->]. now apply Hkeys.
+        -- destruct (Hout x) as [-> ->]; [intros k Hin Ex; apply Hno; eauto|]. now apply Hd.
+      * intros [= Hf]. apply Hd.
+        destruct (fresh_exists I it ks) as (x & Hx).
+        { apply Forall_forall. exact Hk. } { now apply idx_ok_infinite. }
+        destruct (Hout x Hx) as [E1 E2]. rewrite <- E1, <- E2. now rewrite Hf.
+    + (* some assigned index disagrees *)
+      inversion E; subst b. apply combine_false in Ec. apply in_map_iff in Ec. destruct Ec as (k & Ek & Hin).
+      destruct (Gl k) as (A1 & A2 & A3). destruct (Gr k) as (B1 & B2 & B3).
+      pose proof (IH _ _ td false A1 B1 A2 B2 A3 B3 Ek) as Hne.
+      split; [discriminate|]. intros [= Hf]. exfalso. destruct (Hget k Hin) as [E1 E2].
+      assert (C : false = true) by (apply Hne; rewrite <- E1, <- E2; now rewrite Hf). discriminate C.
+  - (* other constants *)
+    assert (Ar : is_array_value r = false).
+    { destruct (is_array_value r) eqn:Ar; auto. exfalso. destruct r as [o rr]. destruct o; try discriminate Ar.
+      destruct (tc_inv _ _ _ Tr) as (tys & _ & Hr). cbn in Hr. destruct tys as [|td trest]; [discriminate|].
+      destruct (array_value_ok it td trest true); [|discriminate]. inversion Hr; subst t.
+      destruct (const_cases l _ Ol Tl Cl) as [(x & -> & E')|[(x & -> & E')|[(n1 & d1 & -> & E' & D1)|[(v1 & w1 & -> & E')|[(s1 & -> & E')|(? & ? & _ & Al')]]]]];
+        try discriminate E'. congruence. }
+    destruct (scalar_eqb_sound l r t Ol Or Tl Tr Cl Cr Al Ar) as (x & y & Ex & Ey & Hxy).
+    destruct l as [ol ll], r as [or' lr].
+    destruct ol; cbn in Cl, Al; try discriminate Cl; try discriminate Al;
+      destruct or'; cbn in Cr, Ar; try discriminate Cr; try discriminate Ar;
+      cbn in E, Ex, Ey; injection Ex as <-; injection Ey as <-; injection E as <-; exact Hxy.
 Qed.
 
 Lemma r_equals_arr_sound a b ty r : okt a = true -> okt b = true -> tc (T OEquals [a; b]) = Some ty ->
@@ -540,25 +614,8 @@ Proof.
   { apply term_eqb_sound in Eq. subst b. inversion E; subst r. repeat split. rewrite eval_plain by reflexivity. cbn. now rewrite veqb_refl. }
   destruct (is_constant a && is_constant b) eqn:C; [|inversion E; subst; exact Hid].
   apply andb_true_iff in C. destruct C as [Ca Cb].
-  assert (Aa : exists it e, ta = TArr it e /\ is_array_value a = true /\ is_array_value b = true).
-  { destruct (const_cases a ta Oa Ha Ca) as [(x & -> & ->)|[(x & -> & ->)|[(n1 & d1 & -> & -> & D1)|[(v1 & w1 & -> & ->)|[(s1 & -> & ->)|(it & e & -> & Aa)]]]]];
-      destruct (const_cases b _ Ob Hb Cb) as [(y & -> & Ey)|[(y & -> & Ey)|[(n2 & d2 & -> & Ey & D2)|[(v2 & w2 & -> & Ey)|[(s2 & -> & Ey)|(it' & e' & Ey & Ab)]]]]];
-      try discriminate Ey; try discriminate Harr. eauto 6. }
-  destruct Aa as (it0 & e0 & -> & Aa & Ab).
-  destruct a as [oa la]. destruct oa; try discriminate Aa. destruct la as [|d rest]; [discriminate E|].
-  destruct b as [ob lb]. destruct ob; try discriminate Ab.
-  destruct lb as [|d' rest']. { apply okt_node in Ob. discriminate Ob. }
-  destruct (tc_array_inv _ _ _ _ Ha) as (td & Td & Ety & _). inversion Ety; subst it0 e0.
-  destruct (tc_array_inv _ _ _ _ Hb) as (td' & Td' & Ety' & _). inversion Ety'; subst it1 td'.
-  rewrite Td in E.
-  assert (Hfalse : infinite_idx it = true -> basic_ty td = true -> res_ok TFalse TBool (eval I (T OEquals [T (OArrayValue it) (d :: rest); T (OArrayValue it) (d' :: rest')]))).
-  { intros Hinf Hbt. repeat split. rewrite eval_plain by reflexivity. cbn [map op_sem]. f_equal. unfold veqb.
-    destruct (excluded_middle_informative _) as [Heq|]; [|reflexivity]. exfalso.
-    refine (arrays_differ it d rest d' rest' td Oa Ob Ha Hb Ca Cb Hbt Hinf _ Heq).
-    intros Hab. rewrite Hab, term_eqb_refl in Eq. discriminate. }
-  pose proof (okt_node _ _ Oa) as Hn. cbn [ok_node] in Hn. unfold arr_node_ok in Hn. apply andb_true_iff in Hn. destruct Hn as [Hk _].
-  destruct (arr_keys_parts _ _ _ Hk) as (_ & Hel & _). rewrite Td in Hel.
-  destruct it; try (inversion E; subst; exact Hid);
-    destruct td; try discriminate Hel; inversion E; subst; try exact Hid; apply Hfalse; reflexivity.
+  destruct (const_eqb (S (tsize a)) a b) as [x|] eqn:Ec; inversion E; subst r.
+  pose proof (const_eqb_sound _ a b ta x Oa Ob Ha Hb Ca Cb Ec) as Hx.
+  repeat split. rewrite eval_plain by reflexivity. cbn [map op_sem]. unfold mk_bool. cbn. f_equal. symmetry. now apply veqb_dec.
 Qed.
 End ArrEq.
